@@ -207,6 +207,40 @@ def _check_in_dir(ctx, case, ref, ref_prog):
                  "module: %r vs %r\n%s" % (dgot, ref, case.show()), case)
         return
     ctx.label("default-loader-linked")
+    # (a2) an umbrella module that only imports the root: linking it pulls the whole program in
+    u = adapter.compile_src('import "%s" ;\n' % root)
+    if u.ok:
+        with open("umbrella_.nslir", "wb") as fh:
+            pickle.dump(u.ir, fh)
+        res, _ = link(["umbrella_"])
+        if res[0] != "linked":
+            ctx.fail("umbrella-link-fails|" + res[2], "linking a module that only imports %s fails: %s\n%s" % (root, res[1], case.show()), case)
+            return
+        ugot = run_program(res[1], case.entry, case.inputs)
+        if not same_runs(ref, ugot):
+            ctx.fail("behaviour-differs|umbrella", "program linked through an import-only umbrella module behaves differently: %r vs %r\n%s" % (
+                ugot, ref, case.show()), case)
+            return
+        ctx.label("umbrella-module-linked")
+    # (a3) one linker used incrementally: two modules that share an import are added and linked one after the other
+    if case.shape == "diamond":
+        try:
+            with adapter.quiet():
+                inc = LinearIR.Linker(loader=LinearIR.FilesystemModuleLoader())
+                inc.AddModule(_load(names[1]))
+                inc.Link()
+                inc.AddModule(_load(names[2]))
+                iprog = inc.Link()
+        except Exception as e:
+            ctx.fail("incremental-link-fails|" + adapter.exc_sig(e), "AddModule(%s); Link(); AddModule(%s); Link() on one linker fails (both import %s): %r\n%s" % (
+                names[1], names[2], names[0], e, case.show()), case)
+            return
+        want = {k for k in ref_prog.Functions.keys() if k != case.entry}
+        have = set(iprog.Functions.keys())
+        if not (have <= set(ref_prog.Functions.keys())) or not (want <= have):
+            ctx.fail("incremental-link-tables", "incremental link has functions %r, the three modules define %r\n%s" % (sorted(have), sorted(want), case.show()), case)
+            return
+        ctx.label("incremental-link")
     # (b) every subset containing the root, in every order
     others = names[:-1]
     budget = 0
@@ -336,6 +370,9 @@ def run(R):
     R.hyp("recompile-in-place", st.lists(genmod.modules_case(n_inputs=1), min_size=2, max_size=2), recompile_check,
           examples=R.pick(15, 300))
     R.require("recompiled-in-place")
+    from . import c17
+    R.hyp("struct-library", c17.lib_cases(), c17.lib_case, examples=R.pick(25, 400))
+    R.require("importer-of-stored-library-ran")
     R.hyp("partitions", genmod.modules_case(), check, examples=R.pick(40, 800), shrink="hyp")
     for l in ("root-only-linked", "overload-set-split-over-modules", "struct-type-shared-across-modules", "shape:diamond", "shape:chain3", "import-not-first", "duplicate-definition-checked"):
         R.require(l)
